@@ -181,6 +181,33 @@ def codes_of(lines):
     return out
 
 
+def _qeq(a, b):
+    return a["k"] == b["k"] and (a["k"] != "n" or a["v"] == b["v"])
+
+
+def rep_diff(model, real):
+    """Fields of the public snapshot on which BuilderImpl and the real builder disagree (names only)."""
+    out = []
+    for k in ("pos", "spos"):
+        if not all(_qeq(a, b) for a, b in zip(model[k], real[k])):
+            out.append(k)
+    for k in ("feed", "power", "toolnum", "bed", "hotend", "chamber"):
+        if not _qeq(model[k], real[k]):
+            out.append(k)
+    for k in ("rel", "srel", "tool", "coolact", "spin", "pmode", "coolant", "swap", "halt", "units", "plane", "fmode", "emode"):
+        if model[k] != real[k]:
+            out.append(k)
+    for k in ("params", "sparams"):
+        for letter, q in model[k].items():
+            if letter in real[k] and not _qeq(q, real[k][letter]):
+                out.append("%s.%s" % (k, letter))
+    for name, b in model["bounds"].items():
+        rb = real["bounds"][name]
+        if b["set"] != rb["set"] or (b["set"] and (list(b["lo"]) if isinstance(b["lo"], list) else b["lo"]) != rb["lo"]):
+            out.append("bounds." + name)
+    return out
+
+
 def replay_behaviours(files, limit=None):
     """Replay TLC behaviours of BuilderImpl on the real builder. Returns
     (traces, descs_per_trace, drift notes, distinct (call,outcome) pairs)."""
@@ -199,6 +226,11 @@ def replay_behaviours(files, limit=None):
             if rev["out"] != mev["out"] or codes_of(rev["lines"]) != codes_of(mev["lines"]):
                 drift.append({"file": os.path.basename(path), "call": d, "model": [mev["out"], codes_of(mev["lines"])],
                               "code": [rev["out"], codes_of(rev["lines"])]})
+            else:
+                # full state conformance: the model's own snapshot against the recorded one
+                diff = rep_diff(mev["rep"], rev["rep"])
+                if diff:
+                    drift.append({"file": os.path.basename(path), "call": d, "state_differs": diff})
         while s.ctx:
             d = {"call": "ctx_exit", "flag": False}
             descs.append(d)
